@@ -112,10 +112,13 @@ def gen_case(seed, idx):
     rows, cuts, ext = {}, {}, {}
     t = 0
     feats = {"zero_duration_chunk_in_subrun": False, "multi_chunk_subrun": False, "adjacent_subruns": False}
-    for r in range(nsub):
+    # run names whose lexicographic order differs from their order in time ("8", "9", "10", "11") must work too
+    base = rng.choice([0, 0, 8, 9])
+    for r0 in range(nsub):
+        r = base + r0
         rid = str(r)
         gap = rng.choice([0, 5000, 20000])
-        if r and gap == 0:
+        if r0 and gap == 0:
             feats["adjacent_subruns"] = True
         t += gap
         t0 = t
